@@ -126,6 +126,10 @@ def bounded_close(T, rng, n):
         def recv(self, n_):
             if self.chatter and self.answered and self.hs_done:
                 Clock.now += self.dt
+                if Clock.now - self.t_start > 500:
+                    # close() is not coming back: end the stream so that the check itself terminates
+                    self.runaway = True
+                    return b""
                 if self.timeout is not None and self.dt > self.timeout:
                     import socket as _s
                     raise _s.timeout("timed out")
@@ -147,6 +151,7 @@ def bounded_close(T, rng, n):
             dt = rng.choice([0.1, 0.4, 1.0, 5.0])
             s = TimedSock([])
             s.chatter, s.dt, s.hs_done = (i % 3 != 0), dt, False
+            s.t_start, s.runaway = Clock.now, False
             s.silence_after = True
             ws = websocket.WebSocket()
             ws.connect("ws://sim.test/", socket=s, suppress_origin=True)
